@@ -171,6 +171,13 @@ def _r1(ctx, rule="R-C04-1"):
     except NFUnsupported:
         nf_ok = False
     walk = _plateau_walk_back(fa.node)
+    if walk is None:
+        # the decision may live in a private helper of the class that the adjustment calls
+        for c_ in calls_in(fa.node):
+            for k_ in prog.resolve_call(fa, c_):
+                h_ = prog.functions.get(k_)
+                if h_ is not None and h_.cls is fa.cls and walk is None:
+                    walk = _plateau_walk_back(h_.node)
     if F[1] == "in" and walk == "walk":
         ctx.holds(fa, fa.node, "flush iff the last sample of pass 1 - a trailing plateau taken at its first sample, as find_turns "
                   "indexes it - is a turning point of the look-ahead sequence")
